@@ -287,6 +287,7 @@ func runTBFCase(c tcase, r *res.Result) (key string, desc string) {
 		iter           int
 	}
 	sentBy := map[vnet.Chunk]*sent{}
+	chunkOfTag := map[string]vnet.Chunk{} // a datagram is identified by its chunk tag (a faithful copy keeps it)
 	if c.Senders > 1 {
 		// order / duplicate / integrity only
 		var wg sync.WaitGroup
@@ -301,6 +302,7 @@ func runTBFCase(c tcase, r *res.Result) (key string, desc string) {
 					ch := vnet.VerifNewChunkUDP(vn.UDP("10.0.0.1", 1000+s), vn.UDP("10.0.0.2", 2000), pl)
 					smu.Lock()
 					sentBy[ch] = &sent{sender: s, seq: i, n: st.Size, hash: vn.Hash(pl)}
+					chunkOfTag[ch.Tag()] = ch
 					smu.Unlock()
 					vnet.VerifInject(f, ch)
 				}
@@ -320,17 +322,18 @@ func runTBFCase(c tcase, r *res.Result) (key string, desc string) {
 		next := make([]int, c.Senders)
 		seen := map[vnet.Chunk]bool{}
 		for _, g := range got {
-			sr := sentBy[g.ptr]
+			orig := chunkOfTag[g.ptr.Tag()]
+			sr := sentBy[orig]
 			if sr == nil {
 				if g.n == 0 {
 					continue // flush marker
 				}
 				return "tbf:invented", "sink received a chunk that was never handed in"
 			}
-			if seen[g.ptr] {
+			if seen[orig] {
 				return "tbf:duplicate", fmt.Sprintf("datagram sender=%d seq=%d forwarded twice", sr.sender, sr.seq)
 			}
-			seen[g.ptr] = true
+			seen[orig] = true
 			if g.hash != sr.hash {
 				return "tbf:modified", fmt.Sprintf("datagram sender=%d seq=%d modified", sr.sender, sr.seq)
 			}
@@ -402,6 +405,7 @@ func runTBFCase(c tcase, r *res.Result) (key string, desc string) {
 		ch := vnet.VerifNewChunkUDP(vn.UDP("10.0.0.1", 1000), vn.UDP("10.0.0.2", 2000), pl)
 		if !flush {
 			sentBy[ch] = &sent{seq: len(its), n: st.Size, hash: vn.Hash(pl), iter: len(its)}
+			chunkOfTag[ch.Tag()] = ch
 		}
 		mu.Lock()
 		lo := len(got)
@@ -450,17 +454,18 @@ func runTBFCase(c tcase, r *res.Result) (key string, desc string) {
 	out := map[vnet.Chunk]bool{}
 	last := -1
 	for _, g := range got {
-		sr := sentBy[g.ptr]
+		orig := chunkOfTag[g.ptr.Tag()]
+		sr := sentBy[orig]
 		if sr == nil {
 			if g.n == 0 {
 				continue
 			}
 			return "tbf:invented", "sink received a chunk that was never handed in"
 		}
-		if out[g.ptr] {
+		if out[orig] {
 			return "tbf:duplicate", fmt.Sprintf("datagram %d forwarded twice", sr.seq)
 		}
-		out[g.ptr] = true
+		out[orig] = true
 		if g.hash != sr.hash || g.n != sr.n {
 			return "tbf:modified", fmt.Sprintf("datagram %d modified", sr.seq)
 		}
